@@ -1,5 +1,6 @@
 import MesaModel.Gen.FnLegacy
 import MesaModel.Proofs.LegacyOrth
+import MesaModel.Proofs.LegacySet
 /-!
 Equivalence of the definitions GENERATED from mesa/space.py (`Gen/FnLegacy.lean`, rewritten by `harness/py2lean.py` on
 every check) with the hand-written model `Model/Legacy.lean` / `Model/LegacyNbhd.lean` (C09, C08).
@@ -160,3 +161,233 @@ theorem C09_orth_spec_generated (d : Dim) (hw : 0 < d.w) (hh : 0 < d.h) (k : NKe
   | ok v =>
     simp [getNbhd, hn, errConv] at h
     rw [h.1]
+
+/-! ### the grid mutators (`is_cell_empty`, `SingleGrid.place_agent`, `SingleGrid.remove_agent`)
+
+The generated definitions work on a concrete state record (`GenFn.LSpace`: `_grid` and `_empty_mask` as lists of rows, `_empties`
+as the list of the set's members, the agent as `GenFn.LAgent` = id + `pos`) and return the tables they leave behind.  The tie to the
+hand-written model is a REFINEMENT through the explicit abstraction function `absSingle`: the model grid of the state the generated
+function returns is the state the model's `place` / `remove` returns on the model grid of the state before (equal as records for
+`place`; for `remove` equal up to the membership of `empties`, `Grid.sameSets`: the model keeps the set sorted, the translation in
+insertion order).  Guards: the tables have the grid's shape (`Shaped`, what `__init__` builds) and the touched coordinate is inside
+the grid (`inGrid`) — outside it Python's `_grid[x][y]` wraps negative indices / raises IndexError, which is outside the subset. -/
+
+theorem get2_set2 {α : Type} [Inhabited α] (t : List (List α)) (i j i' j' : Int) (v : α)
+    (hi : 0 ≤ i) (hj : 0 ≤ j) (hi' : 0 ≤ i') (hj' : 0 ≤ j')
+    (h1 : i.toNat < t.length) (h2 : j.toNat < (t.getD i.toNat []).length) :
+    Py.get2 (Py.set2 t i j v) i' j' = if i' = i ∧ j' = j then v else Py.get2 t i' j' := by
+  unfold Py.get2 Py.set2
+  by_cases hii : i' = i
+  · subst hii
+    by_cases hjj : j' = j
+    · subst hjj
+      simp [List.getD_eq_getElem?_getD, List.getElem?_set, h1] at h2 ⊢
+      simp [h2]
+    · have : j.toNat ≠ j'.toNat := by omega
+      simp [List.getD_eq_getElem?_getD, h1, hjj, this]
+  · have : i.toNat ≠ i'.toNat := by omega
+    simp [List.getD_eq_getElem?_getD, hii, this]
+
+/-- a `w × h` table: `w` rows of length `h` -/
+def Table {α : Type} (t : List (List α)) (w h : Int) : Prop :=
+  t.length = w.toNat ∧ ∀ i : Nat, i < w.toNat → (t.getD i []).length = h.toNat
+
+theorem Table.set2 {α : Type} {t : List (List α)} {w h : Int} (ht : Table t w h) (i j : Int) (v : α) :
+    Table (Py.set2 t i j v) w h := by
+  refine ⟨by simp [Py.set2, ht.1], fun k hk => ?_⟩
+  unfold Py.set2
+  by_cases hki : i.toNat = k
+  · subst hki
+    have := ht.2 _ hk
+    simp [List.getD_eq_getElem?_getD, ht.1, hk] at this ⊢
+    exact this
+  · have := ht.2 _ hk
+    simpa [List.getD_eq_getElem?_getD, hki] using this
+
+def inGrid (w h : Int) (p : Coord) : Prop := 0 ≤ p.1 ∧ p.1 < w ∧ 0 ≤ p.2 ∧ p.2 < h
+instance (w h : Int) (p : Coord) : Decidable (inGrid w h p) := by unfold inGrid; infer_instance
+
+/-- a table read as a total function of the coordinate (`d` outside the grid) -/
+def tabAbs {α β : Type} [Inhabited α] (w h : Int) (f : α → β) (d : β) (t : List (List α)) : Coord → β :=
+  fun p => if inGrid w h p then f (Py.get2 t p.1 p.2) else d
+
+theorem tabAbs_set2 {α β : Type} [Inhabited α] (w h : Int) (f : α → β) (d : β) (t : List (List α)) (ht : Table t w h)
+    (p : Coord) (hp : inGrid w h p) (v : α) :
+    tabAbs w h f d (Py.set2 t p.1 p.2 v) = upd (tabAbs w h f d t) p (f v) := by
+  obtain ⟨h1, h2, h3, h4⟩ := hp
+  funext q
+  unfold upd tabAbs
+  by_cases hq : inGrid w h q
+  · obtain ⟨q1, q2, q3, q4⟩ := hq
+    have hlen : p.1.toNat < t.length := by rw [ht.1]; omega
+    have hrow : p.2.toNat < (t.getD p.1.toNat []).length := by rw [ht.2 _ (by omega)]; omega
+    rw [get2_set2 _ _ _ _ _ _ h1 h3 q1 q3 hlen hrow]
+    by_cases hqp : q = p
+    · subst hqp; simp [inGrid, q1, q2, q3, q4]
+    · have : ¬ (q.1 = p.1 ∧ q.2 = p.2) := fun h => hqp (Prod.ext h.1 h.2)
+      simp [hqp, this, inGrid, q1, q2, q3, q4]
+  · have hqp : q ≠ p := fun h => hq (h ▸ ⟨h1, h2, h3, h4⟩)
+    simp [hqp, hq]
+
+/-- the cell of a SingleGrid (`None` or the agent, named by its `unique_id`) as the model's content list -/
+def cellAbs (c : Option Int) : List Aid := match c with | none => [] | some a => [a.toNat]
+
+/-- THE ABSTRACTION FUNCTION: the model grid a SingleGrid state record stands for (`posf` = every agent's `pos`; `cutoff` is
+    not read by the mutators) -/
+def absSingle (s : GenFn.LSpace) (cutoff : Nat) (posf : Aid → Option Coord) : Grid :=
+  { w := s.width, h := s.height, torus := s.torus, multi := false, cutoff := cutoff,
+    content := tabAbs s.width s.height cellAbs [] s._grid,
+    pos := posf,
+    empties := if s._empties_built then some s._empties else none,
+    mask := tabAbs s.width s.height id true s._empty_mask }
+
+/-- the state record after a generated mutator returned these tables -/
+def GenFn.LSpace.put (s : GenFn.LSpace) (r : List (List (Option Int)) × List (Int × Int) × List (List Bool) × Option (Int × Int)) :
+    GenFn.LSpace :=
+  { s with _grid := r.1, _empties := r.2.1, _empty_mask := r.2.2.1 }
+
+/-- shape invariant of the state record (what `_Grid.__init__` / `_PropertyGrid.__init__` build) -/
+def Shaped (s : GenFn.LSpace) : Prop := Table s._grid s.width s.height ∧ Table s._empty_mask s.width s.height
+
+/-- the agent object the generated functions are handed: agent `a` of the model with its current `pos` -/
+def lagent (posf : Aid → Option Coord) (a : Aid) : GenFn.LAgent := { unique_id := (a : Int), pos := posf a }
+
+def resConv (r : Except Py.Err Unit) : Res := match r with | .ok _ => .ok | .error _ => .err .full
+
+theorem updA_self {β : Type} (f : Aid → β) (a : Aid) : updA f a (f a) = f := by
+  funext b; unfold updA; split <;> simp_all
+
+/-- `_Grid.is_cell_empty` (with `_Grid.default_val`) as generated = the model's `isCellEmpty`, inside the grid -/
+theorem C08_gen_is_cell_empty_eq_model (s : GenFn.LSpace) (cutoff : Nat) (posf : Aid → Option Coord) (p : Coord)
+    (hp : inGrid s.width s.height p) :
+    GenFn.is_cell_empty s p = (absSingle s cutoff posf).isCellEmpty p := by
+  obtain ⟨x, y⟩ := p
+  simp only [GenFn.is_cell_empty, GenFn.default_val, Grid.isCellEmpty, absSingle, tabAbs, hp, if_true]
+  cases Py.get2 s._grid x y <;> rfl
+
+/-- `is_cell_empty` only reads `_grid`: calling it on `{ self with _grid := <the current table> }` is calling it on that table -/
+theorem is_cell_empty_congr (s t : GenFn.LSpace) (p : Coord) (h : t._grid = s._grid) :
+    GenFn.is_cell_empty t p = GenFn.is_cell_empty s p := by
+  obtain ⟨x, y⟩ := p
+  simp only [GenFn.is_cell_empty, h]
+
+theorem is_cell_empty_self (s : GenFn.LSpace) (p : Coord) :
+    GenFn.is_cell_empty { s with _grid := s._grid } p = GenFn.is_cell_empty s p := is_cell_empty_congr s _ p rfl
+
+/-- `SingleGrid.place_agent` as generated refines the model's `place`: same model state afterwards, same outcome -/
+theorem C08_gen_place_agent_eq_model (s : GenFn.LSpace) (cutoff : Nat) (posf : Aid → Option Coord) (a : Aid) (p : Coord)
+    (hs : Shaped s) (hp : inGrid s.width s.height p) :
+    absSingle (s.put (GenFn.place_agent s (lagent posf a) p).2) cutoff (updA posf a (GenFn.place_agent s (lagent posf a) p).2.2.2.2)
+        = ((absSingle s cutoff posf).place a p).1
+      ∧ resConv (GenFn.place_agent s (lagent posf a) p).1 = ((absSingle s cutoff posf).place a p).2 := by
+  have he := C08_gen_is_cell_empty_eq_model s cutoff posf p hp
+  unfold GenFn.place_agent Grid.place
+  simp only [show (absSingle s cutoff posf).multi = false from rfl, Bool.false_eq_true, if_false]
+  rw [← he]
+  rw [is_cell_empty_self]
+  cases hc : GenFn.is_cell_empty s p
+  · simp only [Bool.false_eq_true, if_false, resConv, GenFn.LSpace.put, lagent, updA_self, and_true]
+  · obtain ⟨x, y⟩ := p
+    simp only [if_true, resConv, GenFn.LSpace.put, lagent, and_true]
+    simp only [absSingle]
+    rw [tabAbs_set2 _ _ _ _ _ hs.1 (x, y) hp, tabAbs_set2 _ _ _ _ _ hs.2 (x, y) hp]
+    cases s._empties_built <;> simp [cellAbs, Py.setDiscard, sdiscard, bne]
+
+/-- two optional coordinate sets with the same members (`None` = not built) -/
+def sameMembers (a b : Option (List Coord)) : Prop :=
+  match a, b with
+  | none, none => True
+  | some x, some y => ∀ q, q ∈ x ↔ q ∈ y
+  | _, _ => False
+
+/-- two model grids that are equal except for the representation of the `empties` set, which has the same members -/
+def Grid.sameSets (g1 g2 : Grid) : Prop :=
+  ({ g1 with empties := none } : Grid) = { g2 with empties := none } ∧ sameMembers g1.empties g2.empties
+
+theorem Grid.sameSets_refl (g : Grid) : g.sameSets g := by
+  refine ⟨rfl, ?_⟩
+  unfold sameMembers
+  cases g.empties <;> simp
+
+theorem mem_setInsert (l : List Coord) (p q : Coord) : q ∈ Py.setInsert l p ↔ q = p ∨ q ∈ l := by
+  unfold Py.setInsert
+  by_cases h : l.contains p
+  · have hp : p ∈ l := by simpa using h
+    simp only [h, if_true]
+    constructor
+    · exact Or.inr
+    · rintro (rfl | h') <;> assumption
+  · simp only [h, Bool.false_eq_true, if_false, List.mem_append, List.mem_singleton]
+    exact Or.comm
+
+/-- `SingleGrid.remove_agent` as generated refines the model's `remove` (the agent's `pos`, if any, inside the grid):
+    same model state afterwards up to the order of the `empties` set; the call never raises -/
+theorem C08_gen_remove_agent_eq_model (s : GenFn.LSpace) (cutoff : Nat) (posf : Aid → Option Coord) (a : Aid)
+    (hs : Shaped s) (hp : ∀ p, posf a = some p → inGrid s.width s.height p) :
+    (absSingle (s.put (GenFn.remove_agent s (lagent posf a))) cutoff (updA posf a (GenFn.remove_agent s (lagent posf a)).2.2.2)).sameSets
+        ((absSingle s cutoff posf).remove a).1
+      ∧ ((absSingle s cutoff posf).remove a).2 = .ok := by
+  unfold GenFn.remove_agent Grid.remove
+  simp only [show (absSingle s cutoff posf).multi = false from rfl, Bool.false_eq_true, if_false,
+    show (absSingle s cutoff posf).pos a = posf a from rfl, lagent]
+  cases hpa : posf a with
+  | none =>
+    simp only [GenFn.LSpace.put, and_true]
+    rw [← hpa, updA_self]
+    exact Grid.sameSets_refl _
+  | some p =>
+    have hin := hp p hpa
+    obtain ⟨x, y⟩ := p
+    simp only [GenFn.LSpace.put, GenFn.default_val, and_true]
+    simp only [absSingle]
+    rw [tabAbs_set2 _ _ _ _ _ hs.1 (x, y) hin, tabAbs_set2 _ _ _ _ _ hs.2 (x, y) hin]
+    refine ⟨by simp [cellAbs], ?_⟩
+    cases s._empties_built
+    · simp [sameMembers]
+    · simp only [sameMembers, if_true, Option.map_some]
+      intro q
+      rw [mem_setInsert, mem_sadd]
+
+/-- C08 over the generated text: after an accepted `place_agent` at a coordinate of the grid the four views agree at the touched
+    cell — `agent.pos` is the cell, the cell holds the agent, the cell is not in `_empties`, `_empty_mask` is False there -/
+theorem C08_place_agent_views_generated (s : GenFn.LSpace) (ag : GenFn.LAgent) (p : Coord)
+    (hs : Shaped s) (hp : inGrid s.width s.height p) (he : GenFn.is_cell_empty s p = true) :
+    let r := GenFn.place_agent s ag p
+    r.1 = .ok () ∧ r.2.2.2.2 = some p ∧ Py.get2 r.2.1 p.1 p.2 = some ag.unique_id
+      ∧ (s._empties_built = true → p ∉ r.2.2.1) ∧ Py.get2 r.2.2.2.1 p.1 p.2 = false := by
+  obtain ⟨h1, h2, h3, h4⟩ := hp
+  have hg : p.1.toNat < s._grid.length := by rw [hs.1.1]; omega
+  have hgr : p.2.toNat < (s._grid.getD p.1.toNat []).length := by rw [hs.1.2 _ (by omega)]; omega
+  have hm : p.1.toNat < s._empty_mask.length := by rw [hs.2.1]; omega
+  have hmr : p.2.toNat < (s._empty_mask.getD p.1.toNat []).length := by rw [hs.2.2 _ (by omega)]; omega
+  obtain ⟨x, y⟩ := p
+  simp only [GenFn.place_agent, he, if_true]
+  refine ⟨trivial, trivial, ?_, ?_, ?_⟩
+  · rw [get2_set2 _ _ _ _ _ _ h1 h3 h1 h3 hg hgr]; simp
+  · intro hb; simp [hb, Py.setDiscard]
+  · rw [get2_set2 _ _ _ _ _ _ h1 h3 h1 h3 hm hmr]; simp
+
+/-- C08 over the generated text: after `remove_agent` of an agent standing on a coordinate of the grid — `agent.pos` is None,
+    the cell is empty again, the cell is in `_empties` (if built), `_empty_mask` is True there -/
+theorem C08_remove_agent_views_generated (s : GenFn.LSpace) (ag : GenFn.LAgent) (p : Coord)
+    (hs : Shaped s) (hp : inGrid s.width s.height p) (ha : ag.pos = some p) :
+    let r := GenFn.remove_agent s ag
+    r.2.2.2 = none ∧ GenFn.is_cell_empty (s.put r) p = true
+      ∧ (s._empties_built = true → p ∈ r.2.1) ∧ Py.get2 r.2.2.1 p.1 p.2 = true := by
+  obtain ⟨h1, h2, h3, h4⟩ := hp
+  have hg : p.1.toNat < s._grid.length := by rw [hs.1.1]; omega
+  have hgr : p.2.toNat < (s._grid.getD p.1.toNat []).length := by rw [hs.1.2 _ (by omega)]; omega
+  have hm : p.1.toNat < s._empty_mask.length := by rw [hs.2.1]; omega
+  have hmr : p.2.toNat < (s._empty_mask.getD p.1.toNat []).length := by rw [hs.2.2 _ (by omega)]; omega
+  obtain ⟨x, y⟩ := p
+  simp only [GenFn.remove_agent, ha, GenFn.is_cell_empty, GenFn.LSpace.put, GenFn.default_val]
+  refine ⟨trivial, ?_, ?_, ?_⟩
+  · rw [get2_set2 _ _ _ _ _ _ h1 h3 h1 h3 hg hgr]; simp
+  · intro hb; simp only [hb, if_true]; rw [mem_setInsert]; exact Or.inl rfl
+  · rw [get2_set2 _ _ _ _ _ _ h1 h3 h1 h3 hm hmr]; simp
+
+/-- C18 over the generated text: `place_agent` on an occupied cell raises and hands back every table and `agent.pos` untouched -/
+theorem C18_place_agent_rejected_unchanged_generated (s : GenFn.LSpace) (ag : GenFn.LAgent) (p : Coord)
+    (he : GenFn.is_cell_empty s p = false) :
+    GenFn.place_agent s ag p = (.error Py.Err.Exception, s._grid, s._empties, s._empty_mask, ag.pos) := by
+  simp only [GenFn.place_agent, he, Bool.false_eq_true, if_false]
